@@ -467,7 +467,7 @@ pub fn def() -> PropertyDef {
     PropertyDef {
         id: "C14",
         level: "exploration",
-        rule: "files: 0..10 lines, each a mapping line (IPv4 dotted quad or IPv6 in compressed, full, upper-case, zero-padded or embedded-v4 form; 1..4 names of 1..4 labels, mixed case, optional trailing dot; arbitrary blanks/tabs before, between and after; optionally a comment after a blank or glued to the last name, with non-ASCII text), a blank line, a comment line, an address-only line (optionally with comment) or a %iface line; names come from a small pool so duplicate and conflicting lines are common; 1 file in 6 has one malformed address or name on a mapping line. Oracle: fold the lines in order into (name -> v4, name -> v6); Hosts::deserialise must give exactly that, or fail iff the file has a fault; then serialise/deserialise identity, Zone::from has exactly one A/AAAA record with TTL 5 per mapping in the non-authoritative root zone and resolves each name, TryFrom and from_zone_lossy give the hosts back. binaries: htoh, htoz, ztoh (and ztoh --strict) on generated files. Non-trivial = a comment glued to a field or non-ASCII comment text, or conflicting lines (files); more than one line (binaries). Distinct by hash of the case.",
+        rule: "files: 0..10 lines, each a mapping line (IPv4 dotted quad (small pool or any four octets) or IPv6 in compressed, full, upper-case, zero-padded, embedded-v4, eight-arbitrary-group or long compressed form; 1..4 names of 1..4 labels, mixed case, optional trailing dot; arbitrary blanks/tabs before, between and after; optionally a comment after a blank or glued to the last name, with non-ASCII text), a blank line, a comment line, an address-only line (optionally with comment) or a %iface line; names come from a small pool so duplicate and conflicting lines are common; 1 file in 6 has one malformed address or name on a mapping line. Oracle: fold the lines in order into (name -> v4, name -> v6); Hosts::deserialise must give exactly that, or fail iff the file has a fault; then serialise/deserialise identity, Zone::from has exactly one A/AAAA record with TTL 5 per mapping in the non-authoritative root zone and resolves each name, TryFrom and from_zone_lossy give the hosts back. binaries: htoh, htoz, ztoh (and ztoh --strict) on generated files. Non-trivial = a comment glued to a field or non-ASCII comment text, or conflicting lines (files); more than one line (binaries). Distinct by hash of the case.",
         assumptions: vec![
             "an address-only line with a malformed address is unspecified: not generated",
             "CR before LF counts as a blank",
